@@ -9,6 +9,7 @@ from ..core import FUNC, call_attr, calls_in, const, dotted, is_const, kwarg, no
 
 EXPLANATION = [
     'C12.indication-slot: indications are built in one place, sent under the per-bearer semaphore, and the pending-confirmation slot is cleared in `finally` (same rule as C10.indication-slot): one lost confirmation cannot stop later indications.',
+    'C12.include-agreement: the include declaration written by the server (<HH included-service handle, end group handle, then a 16-bit UUID only) is read back by the client with the same layout; the proxy range is those two fields and a UUID absent from the declaration is read from the included service\'s own declaration (the first field), as Vol 3 Part G 4.5.1 prescribes.',
     'C12.uuid-wire: in gatt/gatt_client/gatt_server a UUID is never serialised with bytes(uuid) for a PDU; every site uses to_pdu_bytes(), which expands 32-bit UUIDs.',
     'C12.subscriber-lifetime: every per-bearer table the notify/indicate/CCCD paths consult is dropped in Server.on_disconnection.',
     'C12.client-group-ends: in the client, every characteristic declaration of a response closes the previous characteristic at handle-1 and is recorded on every path of the per-declaration loop (filtering by UUID happens after the ranges are final).',
@@ -260,7 +261,15 @@ def cccd_bits(ctx):
         if confirm:
             sends = [c for c in calls_in(m) if call_attr(c) == 'send_confirmation' or call_attr(c) == 'ATT_Handle_Value_Confirmation']
             guarded = [c for c in sends if any(isinstance(a, (ast.If, ast.For)) for a in _anc(c) if a is not m and not isinstance(a, FUNC))]
-            R.check(bool(sends) and not guarded, rule, f'{CLI}.{hname} | always confirms', 'confirmation sent unconditionally', 'an indication is not always confirmed', p.loc(m))
+            class Conf(paths.Domain):
+                def event(self, node, v):
+                    if isinstance(node, ast.Call) and call_attr(node) == 'send_confirmation':
+                        return (v + 1,)
+                    return (v,)
+            res = paths.run(m, Conf(), 0)
+            silent = sorted(f'{k}: {v} confirmation(s)' for k, st in res.items() if not k.startswith('raise') for v in st if v != 1)
+            R.check(bool(sends) and not guarded and not silent, rule, f'{CLI}.{hname} | always confirms', 'every normal path sends exactly one confirmation (also when nobody subscribed)',
+                    'an indication can be left unconfirmed (e.g. when no subscriber is registered): the server holds its per-bearer indication slot until the 30 s timeout and every later indication is starved', p.loc(m), silent[:3])
 
 
 def no_skip(ctx):
@@ -444,6 +453,38 @@ def indication_slot(ctx):
     c10.indication_slot(ctx, rule='C12.indication-slot')
 
 
+def include_agreement(ctx):
+    """Writer and reader of the include declaration agree: <HH (included service handle, end group handle) [+ 16-bit UUID];
+    a UUID that is not in the declaration is read from the included service's own declaration (first field)."""
+    R, p = ctx.r, ctx.p
+    rule = 'C12.include-agreement'
+    w = p.find('bumble.gatt.IncludedServiceDeclaration.__init__')
+    r = p.find('bumble.gatt_client.Client.discover_included_services')
+    if w is None or r is None:
+        R.bad(rule, 'bumble.gatt.IncludedServiceDeclaration.__init__ / bumble.gatt_client.Client.discover_included_services', 'anchor missing')
+        return
+    pk = [c for c in calls_in(w) if dotted(c.func) == 'struct.pack']
+    R.check(len(pk) == 1 and [norm(a) for a in pk[0].args] == ["'<HH'", 'service.handle', 'service.end_group_handle'], rule, 'bumble.gatt.IncludedServiceDeclaration.__init__ | layout',
+            'declaration = <HH (service handle, end group handle)', f'include declaration layout changed: {[norm(a) for c in pk for a in c.args]}', p.loc(w))
+    un = [n for n in walk_local(r) if isinstance(n, ast.Assign) and isinstance(n.targets[0], ast.Tuple) and isinstance(n.value, ast.Call) and dotted(n.value.func) in ('struct.unpack_from', 'struct.unpack')
+          and n.value.args and norm(n.value.args[0]) == "'<HH'"]
+    if len(un) != 1:
+        R.bad(rule, 'bumble.gatt_client.Client.discover_included_services | layout', f'{len(un)} <HH unpack sites', p.loc(r))
+        return
+    h0, h1 = [dotted(e) for e in un[0].targets[0].elts]
+    src = norm(un[0].value.args[1]) if len(un[0].value.args) > 1 else ''
+    proxies = [c for c in calls_in(r) if call_attr(c) == 'ServiceProxy']
+    R.check(len(proxies) == 1 and [norm(a) for a in proxies[0].args[1:3]] == [h0, h1], rule, 'bumble.gatt_client.Client.discover_included_services | handle range',
+            f'ServiceProxy range = the two <HH fields of the declaration ({h0}, {h1})', 'the included service proxy is not given the declaration\'s two handle fields in order', p.loc(r))
+    reads = [c for c in calls_in(r) if dotted(c.func) == 'self.read_value']
+    R.check(len(reads) == 1 and len(reads[0].args) >= 1 and norm(reads[0].args[0]) == h0, rule, 'bumble.gatt_client.Client.discover_included_services | UUID read',
+            f'a UUID absent from the declaration is read from the included service\'s own declaration (handle {h0})',
+            f'the follow-up read for a 128-bit UUID uses `{norm(reads[0].args[0]) if reads and reads[0].args else None}`, not the included service\'s declaration handle `{h0}`: the proxy gets a UUID made of unrelated bytes', p.loc(reads[0]) if reads else p.loc(r))
+    tails = [n for n in ast.walk(r) if isinstance(n, ast.Subscript) and norm(n) == f'{src}[4:]']
+    R.check(bool(tails) and any(isinstance(n, ast.If) and 'len(' + src + ') > 4' in norm(n.test) for n in ast.walk(r)), rule, 'bumble.gatt_client.Client.discover_included_services | inline UUID',
+            'a UUID present in the declaration is taken from offset 4', 'inline UUID of the include declaration is not read from offset 4 under a length test', p.loc(r))
+
+
 def uuid_wire(ctx):
     """UUIDs that go into ATT PDUs are serialised with to_pdu_bytes() (32-bit UUIDs expanded to 128 bits)."""
     R, p = ctx.r, ctx.p
@@ -473,6 +514,7 @@ def uuid_wire(ctx):
 RULES = [
     ('C12.indication-slot', indication_slot),
     ('C12.uuid-wire', uuid_wire),
+    ('C12.include-agreement', include_agreement),
     ('C12.subscriber-lifetime', subscriber_lifetime),
     ('C12.client-group-ends', client_group_ends),
     ('C12.progress', progress),
